@@ -432,7 +432,7 @@ func positions(r *lib.Rng, k int, all bool) []int {
 }
 
 func TestVerifMLKEMKeyParsing(t *testing.T) {
-	lib.Mandatory("ek-unreduced-refused", "ek-wellformed-accepted", "dk-hash-mismatch-refused", "dk-wellformed-accepted",
+	lib.Mandatory("ek-unreduced-refused", "ek-wellformed-accepted", "dk-hash-mismatch-refused", "dk-wellformed-accepted", "ek-structured-rho-zero", "ek-structured-that-zero",
 		"kyber-r3-unreduced-pk-compared", "dk-unreduced-decaps-compared")
 	ims := kemImpls()
 	nk := lib.Scale(12, 120)
@@ -458,7 +458,24 @@ func parseCase(im *kemImpl, k int) {
 	} else {
 		// not generated by KeyGen but well-formed: arbitrary reduced t-hat and
 		// s-hat, arbitrary rho, matching hash
-		ek = append(randomReducedVec(r, p.K), r.Bytes(32)...)
+		rho := r.Bytes(32)
+		that := randomReducedVec(r, p.K)
+		// structured components (a stale or special-cased value is most likely
+		// at all-zero / all-ones / constant strings): rho = 0^32, FF^32, 01^32
+		// and t-hat = 0
+		switch (k / 2) % 6 {
+		case 0:
+			rho = fill(32, 0x00)
+			lib.Count("ek-structured-rho-zero")
+		case 1:
+			rho = fill(32, 0xFF)
+		case 2:
+			rho = fill(32, 0x01)
+		case 3:
+			that = make([]byte, len(that))
+			lib.Count("ek-structured-that-zero")
+		}
+		ek = append(that, rho...)
 		dk = append(randomReducedVec(r, p.K), ek...)
 		dk = append(dk, ref.H(ek)...)
 		dk = append(dk, r.Bytes(32)...)
